@@ -31,11 +31,11 @@ type fields struct {
 	dist                   string
 	ec                     string
 	di, ra, gi             int
-	cc, bl, ar, cy, ic, ip string
+	cc, cv, bl, ar, cy, ic, ip string
 }
 
 func (f fields) line(level int) string {
-	s := fmt.Sprintf("n=%d m=%d D=%s ec=%s di=%d ra=%d cc=%s", f.n, f.m, f.dist, f.ec, f.di, f.ra, f.cc)
+	s := fmt.Sprintf("n=%d m=%d D=%s ec=%s di=%d ra=%d cc=%s cv=%s", f.n, f.m, f.dist, f.ec, f.di, f.ra, f.cc, f.cv)
 	if level >= 1 {
 		s += fmt.Sprintf(" gi=%d bl=%s ar=%s cy=%s ic=%s ip=%s", f.gi, f.bl, f.ar, f.cy, f.ic, f.ip)
 	}
@@ -51,6 +51,23 @@ func matrix(d [][]int) string {
 }
 
 func lists(l [][]int) string { return fmt.Sprintf("%d:%s", len(l), gx.Lists(l)) }
+
+// indexOfComponent: for every vertex v the position in all (sorted list of components) of the
+// component that contains v (-1 if none).
+func indexOfComponent(all [][]int, n int) []int {
+	idx := make([]int, n)
+	for v := 0; v < n; v++ {
+		idx[v] = -1
+		for k, c := range all {
+			for _, x := range c {
+				if x == v {
+					idx[v] = k
+				}
+			}
+		}
+	}
+	return idx
+}
 
 type refData struct {
 	f                  fields
@@ -99,6 +116,7 @@ func reference(g *gx.G) refData {
 	r.comps = refComponents(g)
 	r.ncomps = len(r.comps)
 	f.cc = lists(r.comps)
+	f.cv = gx.JoinInts(indexOfComponent(r.comps, g.N), ".")
 	f.bl = lists(refBlocks(g))
 	f.ar = gx.JoinInts(refArticulation(g), ".")
 	r.cyclomatic = f.m - g.N + r.ncomps
@@ -181,8 +199,19 @@ func observe(g6 string, base *gx.G, v gx.Variant, ref refData, viol *[]hx.Oracle
 	}
 	gx.SortLists(bc)
 	f.cc = lists(bc)
+	cv := make([]int, n)
 	for b := 0; b < n; b++ {
 		got := gx.MapBack(v.Perm, graph.ConnectedComponent(g, inv[b]))
+		cv[b] = -1
+		for k, c := range bc {
+			if gx.JoinInts(c, ".") == gx.JoinInts(got, ".") {
+				for _, x := range got {
+					if x == b {
+						cv[b] = k
+					}
+				}
+			}
+		}
 		var want []int
 		for _, c := range ref.comps {
 			for _, x := range c {
@@ -195,6 +224,8 @@ func observe(g6 string, base *gx.G, v gx.Variant, ref refData, viol *[]hx.Oracle
 			fail("ConnectedComponent", "of base vertex %d: got %v want %v (base labels)", b, got, want)
 		}
 	}
+
+	f.cv = gx.JoinInts(cv, ".")
 
 	// blocks and articulation vertices
 	blocks, arts := graph.BiconnectedComponents(g)
